@@ -437,6 +437,13 @@ func init() {
 	// worker from answering lost indications and from closing Inbound on Close
 	fl := c14Params{L: 3, retain: 3, pause: 5, losts: []int{1, 2}, flood: 100}
 	register("both", &h.Scenario{Name: "C14-L3-retain3-after-100-inbound", Prop: "C14", P: 0, F: 0, D: -1, Run: c14Run(fl), Check: c14Oracle(fl)})
+	// backlogs beyond any small bound an implementation might put on waiting deliveries (seeded
+	// change C14-m: after 128 parked deliveries the connection server hands over synchronously and
+	// stops reading the socket - no retransmission after a lost indication, Inbound never closed)
+	for _, n := range []int{129, 300, 1100} {
+		flb := c14Params{L: 2, retain: 3, pause: 5, losts: []int{1, 2}, flood: n}
+		register("both", &h.Scenario{Name: fmt.Sprintf("C14-L2-retain3-after-%d-inbound", n), Prop: "C14", P: 0, F: 0, D: -1, Run: c14Run(flb), Check: c14Oracle(flb)})
+	}
 	f1 := c14Params{L: 0, retain: 0, pause: 1, flat: 300}
 	register("both", &h.Scenario{Name: "C14-flat300-default-retain", Prop: "C14", P: 0, F: 0, D: -1, Run: c14Run(f1), Check: c14Oracle(f1)})
 	f2 := c14Params{L: 0, retain: 64, pause: 1, flat: 300}
